@@ -45,3 +45,16 @@ package field
 //@   recv-value
 //@   modifies nothing
 //@   ensures result == store(fields, fldName(field), fldVal(field))
+
+// the documented value order (Null < False < Number < String < True < JSON, numbers by value, strings by bytes without
+// case) as an uninterpreted relation; Data() is the raw text of a value
+//@ ghost func vless(a ref, b ref) bool
+//@ ghost func valData(v ref) string
+//@ func Value.Less
+//@   assumed
+//@   modifies nothing
+//@   ensures result == vless(v, b)
+//@ func Value.Data
+//@   assumed
+//@   modifies nothing
+//@   ensures result == valData(v)
